@@ -158,3 +158,46 @@ Proof.
   rewrite (sloop_spec (S (length (34 :: l))) 34 l) by (cbn [length]; lia).
   destruct (conv (c_string_body false l)); reflexivity.
 Qed.
+
+(* ---- validateTrue / validateFalse / validateNull: entered on the first letter (the dispatch has seen it), they check
+   that the rest of the word is there; the model's c_literal compares the whole word ---- *)
+Definition lit_check (i : nat) (c : N) : cstm := CIf (CAt i (PNe c)) {{ RetErr }} {{ }}.
+Definition validate_true_prog : cstms := {{ CIf (CRemainLe 3) {{ RetErr }} {{ }} ; lit_check 1 114 ; lit_check 2 117 ; lit_check 3 101 ; RetNil }}.
+Definition validate_false_prog : cstms :=
+  {{ CIf (CRemainLe 4) {{ RetErr }} {{ }} ; lit_check 1 97 ; lit_check 2 108 ; lit_check 3 115 ; lit_check 4 101 ; RetNil }}.
+Definition validate_null_prog : cstms := {{ CIf (CRemainLe 3) {{ RetErr }} {{ }} ; lit_check 1 117 ; lit_check 2 108 ; lit_check 3 108 ; RetNil }}.
+
+Definition lit_verdict (word l : list N) : CurProg.cres :=
+  match c_literal word l with COk _ => CRNil | _ => CRErr end.
+
+Theorem validate_true_is_the_model l : run_cursor validate_true_prog (116 :: l) = lit_verdict [116; 114; 117; 101] (116 :: l).
+Proof.
+  unfold run_cursor, lit_verdict, c_literal.
+  destruct l as [|a [|b [|c r]]]; try reflexivity.
+  cbn [cexec cexec1 validate_true_prog lit_check ceval length Nat.leb nth_error holds firstn list_eqb].
+  change (116 =? 116) with true. cbn [andb].
+  destruct (N.eqb_spec a 114); cbn [negb andb]; [|reflexivity].
+  cbn [cexec cexec1 ceval nth_error holds]. destruct (N.eqb_spec b 117); cbn [negb andb]; [|reflexivity].
+  cbn [cexec cexec1 ceval nth_error holds]. destruct (N.eqb_spec c 101); cbn [negb andb]; reflexivity.
+Qed.
+Theorem validate_null_is_the_model l : run_cursor validate_null_prog (110 :: l) = lit_verdict [110; 117; 108; 108] (110 :: l).
+Proof.
+  unfold run_cursor, lit_verdict, c_literal.
+  destruct l as [|a [|b [|c r]]]; try reflexivity.
+  cbn [cexec cexec1 validate_null_prog lit_check ceval length Nat.leb nth_error holds firstn list_eqb].
+  change (110 =? 110) with true. cbn [andb].
+  destruct (N.eqb_spec a 117); cbn [negb andb]; [|reflexivity].
+  cbn [cexec cexec1 ceval nth_error holds]. destruct (N.eqb_spec b 108); cbn [negb andb]; [|reflexivity].
+  cbn [cexec cexec1 ceval nth_error holds]. destruct (N.eqb_spec c 108); cbn [negb andb]; reflexivity.
+Qed.
+Theorem validate_false_is_the_model l : run_cursor validate_false_prog (102 :: l) = lit_verdict [102; 97; 108; 115; 101] (102 :: l).
+Proof.
+  unfold run_cursor, lit_verdict, c_literal.
+  destruct l as [|a [|b [|c [|d r]]]]; try reflexivity.
+  cbn [cexec cexec1 validate_false_prog lit_check ceval length Nat.leb nth_error holds firstn list_eqb].
+  change (102 =? 102) with true. cbn [andb].
+  destruct (N.eqb_spec a 97); cbn [negb andb]; [|reflexivity].
+  cbn [cexec cexec1 ceval nth_error holds]. destruct (N.eqb_spec b 108); cbn [negb andb]; [|reflexivity].
+  cbn [cexec cexec1 ceval nth_error holds]. destruct (N.eqb_spec c 115); cbn [negb andb]; [|reflexivity].
+  cbn [cexec cexec1 ceval nth_error holds]. destruct (N.eqb_spec d 101); cbn [negb andb]; reflexivity.
+Qed.
